@@ -67,8 +67,18 @@ def run(unit, only=None, timeout=1500):
                     ws_found.append(json.loads(ln[i + len("WITNESS "):]))
                 except Exception:
                     pass
+        stats = []
+        for ln in out.split("\n"):
+            i = ln.find("STATS {")
+            if i >= 0:
+                try:
+                    stats.append(json.loads(ln[i + len("STATS "):]))
+                except Exception:
+                    pass
         ran = re.search(r"running (\d+) tests?", out)
         info = "witness driver ran %s test fn(s); %d failing input(s)" % (ran.group(1) if ran else "?", len(ws_found))
+        if stats:
+            info += "; " + json.dumps(stats)
         if "error: could not compile" in out or "error[E" in out:
             info = "witness driver did not compile against the current tree: " + "\n".join(l for l in out.split("\n") if l.startswith("error"))[:400]
         return ws_found, info
